@@ -630,6 +630,12 @@ func (p *parser) parseModItem() ModItem {
 		p.expect("(")
 		mi.X = p.parseExpr()
 		p.expect(")")
+	case p.accept("above"):
+		// every object allocated after the given watermark (refs > expr)
+		mi.Kind = "above"
+		p.expect("(")
+		mi.X = p.parseExpr()
+		p.expect(")")
 	case p.accept("cellof"):
 		mi.Kind = "cell"
 		p.expect("(")
